@@ -369,6 +369,24 @@ impl World {
     }
 }
 
+impl World {
+    /// kill and reap the helper processes started from this executable (families that start hundreds of them)
+    pub fn reap_children_named(&self, exe_path: &str) {
+        let mut ch = self.children.lock().unwrap();
+        let mut keep = Vec::new();
+        for mut c in ch.drain(..) {
+            let is = std::fs::read_link(format!("/proc/{}/exe", c.id())).map(|p| p.to_string_lossy() == exe_path).unwrap_or(false);
+            if is {
+                let _ = c.kill();
+                let _ = c.wait();
+            } else {
+                keep.push(c);
+            }
+        }
+        *ch = keep;
+    }
+}
+
 impl Drop for World {
     fn drop(&mut self) {
         for c in self.children.lock().unwrap().iter_mut() {
